@@ -8,7 +8,7 @@ BUILT = sys.argv[1].split(",") if len(sys.argv) > 1 else ["C14", "C15", "C16", "
 CHECKS = {
  "C14": dict(cat="exploration", ref="DESIGN.md §4.5",
    text="Seeded simulation of a writer laying sequence files out on an in-memory disk (incl. torn writes and single-character corruptions) and of the reader fetching them through CPython's real text/buffer layers over a simulated raw device with short reads, EIO and open errors; every parse is compared with an independent grammar-level reference parser applied to the bytes on the simulated disk, with handle conservation. Sampling, not proof.",
-   note="Trusts the reference parser (25 lines, written from the statement), CPython's io stack, and that ambiguous layouts (tabs, BOM, lone CR, empty result) are outside the statement and not generated.",
+   note="Trusts the reference parser (written from the statement), CPython's io stack (real Text/Buffered layers over a fault-injecting raw layer on real scratch files), and that ambiguous layouts (whitespace at line ends, characters some splitters treat as line boundaries, BOM, lone CR, non-ASCII digits, empty result) are outside the statement: they are DISCARDED, not judged.",
    tech="deterministic simulation: simulated disk + fault-injected reads vs reference parser"),
  "C15": dict(cat="exploration", ref="DESIGN.md §4.3",
    text="Seeded scheduler interleaves read-only queries (valid and failing) from several live objects; every returned value is compared bit-for-bit with the same call on a fresh object in a pristine forked interpreter that has only replayed the object's mutators. Sampling of histories, not proof.",
@@ -24,7 +24,7 @@ CHECKS = {
    tech="deterministic simulation: simulated clock + RNG tapes, seeded move chains"),
  "C18": dict(cat="exploration", ref="DESIGN.md §4.1",
    text="Whole Wang-Landau runs execute under a simulator that owns both RNGs (adversarial acceptance draws placed relative to the model's acceptance probability), the clock and the log directory (in-memory disk with EIO/ENOSPC/open errors, crash with torn write, restart into the dirty directory); an independent lock-step WL bookkeeping model and a log-text model are compared after every step, at every crash point and on the final outputs.",
-   note="Trusts the 80-line reference model, the real Sequence.kappa as bin oracle, and the guarded per-step hook (falls back to seam-only observation when the hook is absent). Runs are capped; convergence within the cap is not required.",
+   note="Trusts the reference model, the real Sequence.kappa as bin oracle, and the guarded per-step hook (falls back to seam-only observation when the hook is absent). Runs are capped; convergence within the cap is not required. A run that returns normally is held to complete agreement of all outputs; nothing is asserted about the disk of a run that failed after an injected fault. Runs whose draw pattern the RNG seam cannot follow are DISCARDED.",
    tech="deterministic simulation with fault injection: RNG tapes, simulated clock and disk, lock-step reference model"),
  "C20": dict(cat="fault_enumeration", ref="DESIGN.md §4.6",
    text="Histories of palette updates in which the update fails at every possible step of its 20-step validation loop (all 20x2 failure points enumerated, plus seeded histories) interleaved with renders over several live objects; checked against a reference palette and a structural reference renderer after every operation.",
@@ -64,7 +64,7 @@ m = {
               "kind_free_text": "hand-written deterministic simulator for a single-process Python library: seeded plan/fault streams, SimClock, tape RNG, SimFS, hermetic fork per run, event-log digests, ddmin-style minimiser, replay files"}],
  "checks": [],
  "not_applicable": [],
- "notes": "Technique family: deterministic simulation with fault injection. 14 of the 20 properties are pure input->output statements and are listed under not_applicable with the reason (DESIGN.md §5). Exit codes: 0 held / 1 VIOLATION / 3 HARNESS-ERROR (never read as a pass). Fixed genuine defects and open known findings are in known_findings.json.",
+ "notes": "Technique family: deterministic simulation with fault injection. Every check runs its directed corpus, the seeded swarm, a determinism sample (same run twice in different workers) and a final pass under `python -O`. 14 of the 20 properties are pure input->output statements and are listed under not_applicable with the reason (DESIGN.md §5). Exit codes: 0 held / 1 VIOLATION / 3 HARNESS-ERROR (never read as a pass). Fixed genuine defects and open known findings are in known_findings.json.",
 }
 for pid in sorted(CHECKS):
     c = CHECKS[pid]
